@@ -1,4 +1,34 @@
 import numba as nb
+from numba.core import types
+from numba.extending import overload
+
+
+def _add(total, x, like):
+    """total + x for `cumsum`; `like` is a scalar of the output dtype."""
+    raise NotImplementedError
+
+
+@overload(_add)
+def _add_overload(total, x, like):
+    if isinstance(x, (types.Integer, types.Boolean)) and isinstance(
+        like, types.Integer
+    ):
+        # integers into integers: add in the output dtype. Mixed operands such
+        # as uint64 + int64 would otherwise be unified to float64 by numba,
+        # losing precision above 2**53
+        T = like
+
+        def impl(total, x, like):
+            return T(total + T(x))
+
+    else:
+        # a float on either side: add in the promoted type (as numpy.cumsum
+        # with out= does) and let the store convert the partial sum, instead of
+        # truncating or rounding every term to the output dtype first
+        def impl(total, x, like):
+            return total + x
+
+    return impl
 
 
 @nb.njit
@@ -48,12 +78,13 @@ def cumsum(arr, out, initial=False, final=True, offset=0):
     if initial and N_out > 0:
         out[0] = total
 
+    like = dtype(0)
     for i in range(N - 1):
-        total += arr[i]
+        total = _add(total, arr[i], like)
         out[i + int(initial)] = total
 
     if N > 0:
-        total += arr[-1]
+        total = _add(total, arr[-1], like)
         if final:
             out[-1] = total
 
